@@ -147,7 +147,7 @@ class Lits:
 def rule_const(prop, repo):
     F, P = repo.F, repo.P
     t, q, r = P.t, P.q, P.r
-    R = Rule("R-CONST", "every standard-fixed literal satisfies its defining relation (recomputed from t with Python integers)", floor=20, exhaustive=True)
+    R = Rule("R-CONST", "every standard-fixed literal satisfies its defining relation (recomputed from t with Python integers)", floor=10, exhaustive=True)
     fp = repo.fp_types()
 
     def chk(name, got, want, what):
@@ -278,6 +278,63 @@ def rule_const(prop, repo):
 
 
 # ====================================================================== generators
+def machine_literal(repo, body):
+    """The literal value a parameterless constructor function returns, read through whatever helpers, tables and byte
+    decoders it uses: the byte-provenance machine runs it (all inputs are literals of the program) and the limbs / decimal
+    string that reach the field constructors are decoded here. → nested tuples of ints, or None."""
+    from core.bytex import Machine, T, Tup as BTup, Adt as BAdt, mentions_bytes
+    F = repo.F
+    root_file = (body.rec.get("span") or {}).get("file")
+    fp_new = {i["new"].rec["path"] for i in repo.fp_types().values()}
+
+    def pol(cb):
+        if cb.rec["kind"] in ("Closure", "Ctor"):
+            return True
+        if cb.rec["path"] in fp_new:
+            return False
+        ins = cb.rec.get("inputs") or []
+        if any(mentions_bytes(x) for x in ins) or mentions_bytes(cb.rec.get("output") or ""):
+            return True
+        if (cb.rec.get("span") or {}).get("file") == root_file:
+            return True
+        # plain constructors of the tower types (Fq2::new(a, b) …)
+        return len(cb.blocks) <= 3 and cb.name == "new" and (cb.rec.get("impl_self_adt") or "").startswith("crate::fields::fq")
+    outs = Machine(F, pol).run(body, [])
+    good = [o for o in outs if o.kind == "return" and all(c in ("Some", "Ok") for _, c in o.pc)]
+    if len(good) != 1:
+        return None
+    q = repo.P.q
+
+    def lit(v):
+        if isinstance(v, BAdt) and v.name in ("crate::groups::G", "crate::groups::AffineG"):
+            return tuple(lit(x) for x in v.fields)
+        if isinstance(v, BAdt) and v.name == "crate::fields::fq2::Fq2" and len(v.fields) == 2:
+            a, b = lit(v.fields[0]), lit(v.fields[1])
+            return None if a is None or b is None else (a, b)
+        if isinstance(v, BAdt) and len(v.fields) == 1:
+            return lit(v.fields[0])
+        if isinstance(v, T):
+            if v[0] == "payload" and v[2] in ("Some", "Ok"):
+                c = v[1]
+                if isinstance(c, T) and c[0] == "call" and c[1] in fp_new and len(c[3]) == 1:
+                    x = c[3][0]
+                    if isinstance(x, T) and x[0] == "conv" and isinstance(x[3], BTup) and all(isinstance(l, int) for l in x[3]):
+                        val = sum(l << (64 * i) for i, l in enumerate(x[3]))
+                        return val if val < q else None
+                if isinstance(c, T) and c[0] == "call" and c[1].split("::")[-1] == "from_str" and len(c[3]) == 1 and isinstance(c[3][0], BTup) and all(isinstance(b, int) for b in c[3][0]):
+                    sbytes = bytes(c[3][0])
+                    return int(sbytes.decode()) % q if sbytes.isdigit() else None
+                return None
+            if v[0] == "call" and not v[3] and v[1].split("::")[-1] == "one":
+                return 1
+            if v[0] == "call" and not v[3] and v[1].split("::")[-1] == "zero":
+                return 0
+            if v[0] == "call" and v[1].split("::")[-1] == "one" and "Fq2" in v[2]:
+                return (1, 0)
+        return None
+    return lit(good[0].value)
+
+
 def rule_generators(prop, repo):
     F, P = repo.F, repo.P
     q, r = P.q, P.r
@@ -292,16 +349,25 @@ def rule_generators(prop, repo):
         return R.finish()
     bv1 = L.fq(repo.tb(b1).return_value())
     bv2 = L.fq2(repo.tb(b2).return_value())
+    if bv1 is None:
+        bv1 = machine_literal(repo, b1)
+    if bv2 is None:
+        bv2 = machine_literal(repo, b2)
     R.instance()
     R.check(bv1 == 5, "%s:gen:b1" % prop, "G1 coeff_b is %s, not 5" % bv1, b1.file_line(), sample={"coeff_b(G1)": bv1})
     R.instance()
     R.check(bv2 == (0, 5), "%s:gen:b2" % prop, "G2 coeff_b is %s, not 5u" % (bv2,), b2.file_line(), sample={"coeff_b(G2)": bv2})
     rv1 = repo.tb(g1).return_value()
     R.instance()
-    if rv1[0] != "agg" or len(rv1[3]) != 3:
-        R.fail_closed("%s:gen:P1:shape" % prop, "G1 generator is not a G{x,y,z} literal")
+    xyz = None
+    if rv1[0] == "agg" and len(rv1[3]) == 3:
+        xyz = (L.fq(rv1[3][0]), L.fq(rv1[3][1]), L.fq(rv1[3][2]))
+    if xyz is None or None in xyz:
+        xyz = machine_literal(repo, g1)
+    if not (isinstance(xyz, tuple) and len(xyz) == 3):
+        R.fail_closed("%s:gen:P1:shape" % prop, "the literal coordinates of the G1 generator could not be read")
     else:
-        x, y, z = L.fq(rv1[3][0]), L.fq(rv1[3][1]), L.fq(rv1[3][2])
+        x, y, z = xyz
         ok = None not in (x, y, z) and z == 1 and (y * y - x ** 3 - 5) % q == 0
         add, dbl = make_curve_fq(q)
         ordr = ok and ec_mul(r, (x, y), add, dbl) is None
@@ -310,10 +376,17 @@ def rule_generators(prop, repo):
                 sample={"P1.x": hex(x) if x is not None else None, "on_curve": bool(ok), "order_r": bool(ordr), "matches_standard": bool(std)})
     rv2 = repo.tb(g2).return_value()
     R.instance()
-    if rv2[0] != "agg" or len(rv2[3]) != 3:
-        R.fail_closed("%s:gen:P2:shape" % prop, "G2 generator is not a G{x,y,z} literal")
+    xyz = None
+    if rv2[0] == "agg" and len(rv2[3]) == 3:
+        xyz = (L.fq2(rv2[3][0]), L.fq2(rv2[3][1]), L.fq2(rv2[3][2]))
+    if xyz is None or None in xyz:
+        xyz = machine_literal(repo, g2)
+        if isinstance(xyz, tuple) and len(xyz) == 3 and xyz[2] == 1:
+            xyz = (xyz[0], xyz[1], (1, 0))
+    if not (isinstance(xyz, tuple) and len(xyz) == 3):
+        R.fail_closed("%s:gen:P2:shape" % prop, "the literal coordinates of the G2 generator could not be read")
     else:
-        x, y, z = L.fq2(rv2[3][0]), L.fq2(rv2[3][1]), L.fq2(rv2[3][2])
+        x, y, z = xyz
         K = PyFq2(q)
         ok = None not in (x, y, z) and z == (1, 0) and K.sub(K.mul(y, y), K.add(K.mul(K.mul(x, x), x), (0, 5))) == (0, 0)
         add, dbl = make_curve_fq2(q)
@@ -640,7 +713,7 @@ def rule_frobenius(prop, repo):
 
 def rule_frob_dispatch(prop, repo):
     F = repo.F
-    R = Rule("R-FROB-DISPATCH", "every call of a frobenius_map passes a literal power that has an implemented arm (no reachable unimplemented!())", floor=22, exhaustive=True)
+    R = Rule("R-FROB-DISPATCH", "every call of a frobenius_map passes a literal power that has an implemented arm (no reachable unimplemented!())", floor=6, exhaustive=True)
     impl = {}
     for path in ("crate::fields::fq4::Fq4::frobenius_map", "crate::fields::fq12::Fq12::frobenius_map"):
         b = F.bodies.get(path)
